@@ -27,6 +27,7 @@ pub const DEF: PropDef = PropDef {
 };
 
 pub const SUBS: &[SubDef] = &[
+    SubDef { prop: "C12", name: "name_aliases", oracle: name_aliases },
     SubDef { prop: "C12", name: "name_slices", oracle: name_slices },
     SubDef { prop: "C12", name: "rows", oracle: rows },
     SubDef { prop: "C12", name: "golden", oracle: golden },
@@ -99,6 +100,9 @@ fn run(ctx: &Ctx) {
     let seed = ctx.seed;
     ctx.run_fn("names_volume", false, &format!("8 threads x {} generated unregistered names (4 shapes) through both by-name routes", per), move |obs| names_volume(obs, per, seed));
     ctx.run_tape("names", names, ctx.pick(200_000, 400_000), 64);
+    // spellings of a suite other than its registered name - the id written as text, other separators, other libraries' names for the same
+    // suite - are "any other string": every row, some forty spellings each
+    ctx.run_enum("name_aliases", name_aliases, true, "every row x ~40 other spellings (id in hex / decimal text, separators replaced, case, TLS_ prefix dropped or changed, OpenSSL-style names)", (0..nfile as u32).map(|i| vec![(i >> 8) as u8, i as u8]));
     // the statement over a history of edits: the registry of a build made after the list was edited is the edited list
     let edits = ctx.pick(1, 3);
     ctx.run_fn("rebuild_after_edit", false, "scratch copy of the tree under test built with a probe program, then the list is edited (a generated private-use row appended, a row renamed, a row deleted) and the copy is built again in the same target directory: the probe must see the edited list", move |obs| {
@@ -385,7 +389,7 @@ fn main() {
     let n = tb.file.len();
     let mut new_id = 0xff00u16 + t.u8() as u16;
     while tb.file.iter().any(|r| r.id == new_id) || new_id == 0xffff {
-        new_id = 0xff00 + ((new_id + 1) & 0xff);
+        new_id = 0xff00 + (new_id.wrapping_add(1) & 0xff);
     }
     let donor = &tb.file[t.below(n)];
     let mut renamed = &tb.file[t.below(n)];
@@ -438,7 +442,7 @@ fn main() {
     for (k, shape) in ["ten-columns", "url-reference"].iter().enumerate() {
         let mut id = new_id;
         loop {
-            id = 0xff00 + ((id + 1 + k as u16) & 0xff);
+            id = 0xff00 + (id.wrapping_add(1 + k as u16) & 0xff);
             if id != 0xffff && id != new_id && !tb.file.iter().any(|r| r.id == id) && !extra.iter().any(|e| e.0 == id) {
                 break;
             }
@@ -501,6 +505,43 @@ fn main() {
     ensure!(val(&after, &format!("id:{:04x}", deleted.id)) == "none" && val(&after, &format!("name:{}", deleted.name)) == "none", "C12:rebuild:deleted-row", "{}: the deleted suite is still found: {}", what, val(&after, &format!("id:{:04x}", deleted.id)));
     obs.nontrivial(seed);
     obs.sample(json!({"appended": format!("{:04x}:{}", new_id, new_name), "copied_from": donor.name, "renamed": format!("{} -> {}", renamed.name, ren_name), "deleted": deleted.name, "registry_after": val(&after, "count")}));
+    Ok(())
+}
+
+fn name_aliases(t: &mut Tape, obs: &mut Obs) -> R {
+    let i = t.u16() as usize;
+    let tb = tabs()?;
+    let r = match tb.file.get(i) {
+        Some(r) => r,
+        None => return Ok(()),
+    };
+    let n = &r.name;
+    let bare = n.trim_start_matches("TLS_");
+    let mut q: Vec<String> = vec![
+        format!("0x{:04x}", r.id), format!("0x{:04X}", r.id), format!("0X{:04x}", r.id), format!("0x{:x}", r.id), format!("{:04x}", r.id), format!("{:04X}", r.id), format!("{}", r.id), format!("#{:04x}", r.id),
+        format!("0x{:02x},0x{:02x}", r.id >> 8, r.id & 0xff), format!("0x{:02X},0x{:02X}", r.id >> 8, r.id & 0xff), format!("{{0x{:02X},0x{:02X}}}", r.id >> 8, r.id & 0xff), format!("{:02x}:{:02x}", r.id >> 8, r.id & 0xff), format!("{:02x} {:02x}", r.id >> 8, r.id & 0xff),
+        n.replace('_', "-"), n.replace('_', " "), n.replace('_', "."), n.replace('_', ":"), n.replace('_', ""), n.replace('_', "__"), n.replacen('_', "-", 1),
+        n.to_lowercase(), n.to_lowercase().replace('_', "-"), bare.to_string(), bare.replace('_', "-"), bare.to_lowercase(), format!("SSL_{}", bare), format!("TLS1_{}", bare), format!("TLS1_CK_{}", bare), format!("TLS1_TXT_{}", bare), format!("MBEDTLS_{}", n), format!("GNUTLS_{}", bare),
+        bare.replace("_WITH_", "-").replace('_', "-"), bare.replace("_WITH_", "_"), format!("{}\0", n), format!("{}\n", n), format!(" {}", n), format!("{};", n), format!("\"{}\"", n), format!("{}={:04x}", n, r.id), format!("{:04x}:{}", r.id, n),
+    ];
+    q.dedup();
+    for s in &q {
+        let want = tb.file.iter().find(|x| &x.name == s);
+        obs.evals_add(2);
+        let routes: [(&str, Option<&TlsCipherSuite>); 2] = [("from_name", guard("TlsCipherSuite::from_name", || TlsCipherSuite::from_name(s))?), ("TryFrom<&str>", guard("TryFrom<&str> for &TlsCipherSuite", || <&TlsCipherSuite>::try_from(s.as_str()).ok())?)];
+        for (rn, got) in routes {
+            match (want, got) {
+                (None, None) => {}
+                (Some(w), Some(g)) => ensure!(g.id.0 == w.id, format!("C12:name-aliases:{}:wrong", rn), "{}({:?}) returned {:04x}, expected {:04x}", rn, s, g.id.0, w.id),
+                (None, Some(g)) => return fail(format!("C12:name-aliases:{}:phantom", rn), format!("{}({:?}) returned {:04x} {} although no suite has that name (it is another spelling of {:04x} {})", rn, s, g.id.0, g.name, r.id, n)),
+                (Some(w), None) => return fail(format!("C12:name-aliases:{}:missing", rn), format!("{}({:?}) returned nothing, expected {:04x}", rn, s, w.id)),
+            }
+        }
+    }
+    obs.nontrivial(r.id as u64);
+    if obs.wants_sample() {
+        obs.sample(json!({"name": n, "spellings": q.iter().take(12).collect::<Vec<_>>()}));
+    }
     Ok(())
 }
 
